@@ -93,7 +93,12 @@ def run(ck):
         mt = None if mat is None else torch.tensor(mat, dtype=dtype)
         Xe, Ze = Xt.double().numpy(), Zt.double().numpy()
         me = None if mt is None else mt.double().numpy()
-        kobj = make_kernel(xr, kn, L, q, p, cmix, power)
+        # every other block of five: the bandwidth in force is ASSIGNED after construction (as adaptation, best-iterate restore and
+        # load_state_dict do), the constructed one is different
+        rebw = ((i // 5) % 2 == 1)
+        kobj = make_kernel(xr, kn, L * (2.5 if rebw else 1.0), q, p, cmix, power)
+        kobj.bandwidth = L
+        ck.count('bandwidth assigned after construction' if rebw else 'bandwidth as constructed')
         with xr.quiet():
             Kmat = kobj.get_kernel_matrix(Xt, Zt, mt).double().numpy()
             Kxx = kobj.get_kernel_matrix(Xt, Xt, mt).double().numpy()
